@@ -787,6 +787,84 @@ void exhaustive()
     }
   }
 
+  // inverted boxes (max < pos in at least one coordinate, e.g. what shrink returns for a large amount): under the
+  // point-set reading they are empty. Judged: contains_point is false everywhere, the intersection with any box has no
+  // point, an inverted outer box contains no non-empty inner box. (Whether the intersection is *the null box* is not
+  // judged for inverted operands: the statement ties that clause to boxes that "do not intersect".)
+  e = "inverted<" + c.tag + ">";
+  if (vf::entry_enabled(e))
+  {
+    vf::set_entry(e);
+    std::vector<obox<N>> inv;
+    {
+      std::vector<std::pair<ll, ll>> iv;
+      for (ll lo = c.off - 3; lo <= c.off + 3; ++lo)
+        for (ll hi = c.off - 3; hi <= c.off + 3; ++hi)
+          iv.emplace_back(lo, hi);
+      std::size_t total = 1;
+      for (dim_t i = 0; i < N; ++i)
+        total *= iv.size();
+      for (std::size_t k = 0; k < total; ++k)
+      {
+        obox<N> b;
+        std::size_t q = k;
+        bool any_inverted = false;
+        for (dim_t i = 0; i < N; ++i)
+        {
+          b.lo[i] = iv[q % iv.size()].first;
+          b.hi[i] = iv[q % iv.size()].second;
+          any_inverted = any_inverted || b.hi[i] < b.lo[i];
+          q /= iv.size();
+        }
+        if (any_inverted)
+          inv.push_back(b);
+      }
+    }
+    for (std::size_t i = 0; i < inv.size(); ++i)
+    {
+      if (!vf::mine(i))
+        continue;
+      obox<N> const &a = inv[i];
+      if (!vf::begin_case("inverted box=%s all lattice points, every 5th regular box", show<N>(a).c_str()))
+        continue;
+      vf::sample_case(1);
+      vf::note_distinct(hash_box<N>(a, vf::hash_str(e)));
+      auto const la = L::mk(a);
+      std::uint64_t n = 0;
+      for (auto const &p : c.lat.pts)
+      {
+        ++n;
+        if (fcppt::math::box::contains_point(la, L::mkvec(p)))
+        {
+          c.bad("contains_point", "point-in-inverted-box", "box " + show<N>(a) + " point " + show<N>(p));
+          break;
+        }
+      }
+      VF_COUNT("contains_point/inverted-box");
+      for (std::size_t j = i % 5; j < boxes.size(); j += 5)
+      {
+        obox<N> const &b = boxes[j];
+        auto const lb = L::mk(b);
+        for (int order = 0; order < 2; ++order)
+        {
+          ++n;
+          obox<N> const r = L::ob(order == 0 ? fcppt::math::box::intersection(la, lb) : fcppt::math::box::intersection(lb, la));
+          if (c.ps.of(r).any())
+            c.bad("intersection", "inverted-operand/extra-points", "a=" + show<N>(a) + " b=" + show<N>(b) + " got=" + show<N>(r));
+        }
+        VF_COUNT("intersection/inverted-operand");
+        if (all_lt<N>(b.lo, b.hi))
+        {
+          ++n;
+          if (fcppt::math::box::contains(la, lb))
+            c.bad("contains", "inverted-outer-contains-nonempty-inner", "outer=" + show<N>(a) + " inner=" + show<N>(b));
+          VF_COUNT("contains/inverted-outer");
+        }
+      }
+      vf::add_evals(n - 1);
+    }
+  }
+
   e = "resize<" + c.tag + ">";
   if (vf::entry_enabled(e))
   {
@@ -1090,7 +1168,7 @@ void body()
 {
   for (char const *b :
        {"size-pos-max/boxes", "size/nonempty-box", "size/empty-box", "corner_points/boxes", "contains_point/inside-on-min-face",
-        "contains_point/inside-interior", "contains_point/outside-on-max-face", "contains_point/outside-on-empty-box",
+        "contains_point/inside-interior", "contains_point/outside-on-max-face", "contains_point/outside-on-empty-box", "contains_point/inverted-box", "intersection/inverted-operand", "contains/inverted-outer",
         "contains_point/outside-exterior", "intersection/empty-operand", "intersection/common-points",
         "intersection/disjoint-touching", "intersection/disjoint-separated", "intersects/true", "intersects/false-touching",
         "intersects/false-separated", "contains/true-shared-face", "contains/true-strictly-inside", "contains/false",
